@@ -44,7 +44,6 @@ import (
 	"regexp"
 	"strconv"
 	"strings"
-	"sync"
 	"testing"
 	"time"
 	"unicode"
@@ -389,14 +388,17 @@ func exec(line string) string {
 // ---- the API's alert filter (api/v2 matchFilterLabels behind GET /api/v2/alerts?filter=…) ----
 
 var (
-	apiOnce   sync.Once
 	apiAlerts *mem.Alerts
 	apiH      http.Handler
 	apiSeq    int
 )
 
 func apiMatch(lm labels.Matchers, lset model.LabelSet) string {
-	apiOnce.Do(func() {
+	// a fresh provider + API every 400 calls: resolved alerts stay in the store until its GC, and the handler walks the whole store
+	if apiSeq%400 == 0 {
+		if apiAlerts != nil {
+			apiAlerts.Close()
+		}
 		var err error
 		reg := prometheus.NewRegistry()
 		apiAlerts, err = mem.NewAlerts(context.Background(), 1000*time.Hour, 0, nil, promslog.NewNopLogger(), eventrecorder.NopRecorder(), reg, nil)
@@ -413,7 +415,7 @@ func apiMatch(lm labels.Matchers, lset model.LabelSet) string {
 		}
 		api.Update(cfg, func(context.Context, model.LabelSet) {})
 		apiH = api.Handler
-	})
+	}
 	ls := model.LabelSet{}
 	for n, v := range lset {
 		if v != "" {
